@@ -59,8 +59,19 @@ VSubscribe(e) ==
     THEN V("C34_LateSubscriber", S)
     ELSE V("", Subscribe(S, e.svc))
 
+\* the node restarts offline and falls back to its announcement cache: every stored announcement of a subscribed service
+\* is delivered again, and stays THE stored announcement of its (service, key) - the sequence-number rule keeps applying
+VRestart(e) ==
+  LET want == UNION {StoredFor(S, svc) : svc \in S.subs}
+      got == {NormDel(e.out[n]) : n \in 1..Len(e.out)}
+  IN IF got # want \/ Len(e.out) # Cardinality(want) THEN V("C34_cache_delivery", S)
+     ELSE IF ~ObsInDomain(S, e.store) THEN V("C34_Attribution_unknown_index", S)
+     ELSE IF ObsStore(S, e.store) # S.store THEN V("C34_cache_differs_from_store", S)
+     ELSE V("", S)
+
 Verdict(e) ==
   CASE e.ev = "Batch"     -> VBatch(e)
+    [] e.ev = "Restart"   -> VRestart(e)
     [] e.ev = "Subscribe" -> VSubscribe(e)
     [] OTHER              -> V("unknown_event", S)
 
